@@ -11,7 +11,7 @@ from ..model import Model
 from ..normal import ext_name, strip_cast
 from ..report import Result
 from ..terms import NONE, T, const, contains, deps, mk, uncopy
-from .common import txt
+from .common import as_proj, norm_path, raise_exits, txt
 
 EXPLANATION = (
     "Decided on jumanji/registration.py and jumanji/__init__.py: (R1) the id regex (parsed to its AST with the standard "
@@ -211,9 +211,10 @@ def check(tier: str) -> Result:
     M = None
     if r.kind == "tuple" and len(r.args[0]) == 2:
         a, b = r.args[0]
-        if a.kind == "proj" and a.args[1] == 0 and ext_name(b) == "builtins.int" and b.args[1] and b.args[1][0].kind == "proj" \
-                and b.args[1][0].args[1] == 1 and b.args[1][0].args[0] is a.args[0]:
-            G = a.args[0]
+        pa = as_proj(a)
+        pb = as_proj(b.args[1][0]) if ext_name(b) == "builtins.int" and b.args[1] else None
+        if pa is not None and pb is not None and pa[1] == 0 and pb[1] == 1 and pb[0] is pa[0]:
+            G = pa[0]
             if G.kind == "call" and G.args[0].kind == "attr" and G.args[0].args[1] == "group" and \
                     [x.args[0] if x.kind == "const" else None for x in G.args[1]] == ["name", "version"]:
                 M = G.args[0].args[0]
@@ -224,17 +225,24 @@ def check(tier: str) -> Result:
                 if meth == "match" and not info.get("end_string"):
                     why += " -- .match with a `$` anchor accepts an id followed by a newline (malformed ids must be rejected)"
     res.add("C18.R1", f.loc(), "registration.parse_env_id", "returns (match.group('name'), int(match.group('version'))) of ENV_NAME_RE on the id", ok, why)
-    # raising branches
-    raises = []
-    for node in ast.walk(f.node):
-        if isinstance(node, ast.If) and node.body and isinstance(node.body[-1], ast.Raise):
-            raises.append(ast.unparse(node.test))
-    tests = [uncopy(e.target) for e in vfg.events if e.kind == "py_branch" and e.name == "if" and e.func is f]
-    no_match = any((t.kind == "un" and t.args[0] == "not" and t.args[1] is M) or
-                   (t.kind == "cmp" and t.args[0] == "is" and t.args[1] is M and t.args[2] is NONE) for t in tests) if M is not None else False
-    ver_none = any(t.kind == "cmp" and t.args[0] == "is" and t.args[2] is NONE and t.args[1].kind == "proj" and t.args[1].args[1] == 1 for t in tests)
-    res.add("C18.R1", f.loc(), "registration.parse_env_id", "raises when the regex does not match", no_match and len(raises) >= 1, f"raising tests {raises}")
-    res.add("C18.R1", f.loc(), "registration.parse_env_id", "raises when the version group is None", ver_none and len(raises) >= 2, f"raising tests {raises}")
+    # raising paths (path conditions of the raise statements reached from parse_env_id)
+    rx = [(fn, node, path) for fn, node, path, _ in raise_exits(vfg)]
+    raises = [" and ".join(("" if pol else "not ") + txt(t, 3, 50) for t, pol, _ in path) for _, _, path in rx]
+
+    def is_no_match(t, pol):
+        return M is not None and ((t is M and not pol) or (t.kind == "cmp" and t.args[0] == "is" and t.args[1] is M and t.args[2] is NONE and pol))
+
+    def is_version_none(t, pol):
+        if t.kind == "cmp" and t.args[0] == "is" and t.args[2] is NONE and pol:
+            pv = as_proj(t.args[1])
+            return pv is not None and pv[1] == 1 and M is not None and contains(pv[0], M)
+        pv = as_proj(t)
+        return pv is not None and pv[1] == 1 and not pol and M is not None and contains(pv[0], M)   # `if not version`
+
+    no_match = any(len(path) == 1 and is_no_match(*path[0][:2]) for _, _, path in rx)
+    ver_none = any(len(path) == 2 and not is_no_match(*path[0][:2]) and is_no_match(path[0][0], not path[0][1]) and is_version_none(*path[1][:2]) for _, _, path in rx)
+    res.add("C18.R1", f.loc(), "registration.parse_env_id", "raises when the regex does not match", no_match, f"raising paths {raises}")
+    res.add("C18.R1", f.loc(), "registration.parse_env_id", "raises when the version group is None", ver_none, f"raising paths {raises}")
     # ------------------------------------------------------------------ R2
     writes = registry_writes(tree)
     module_init = [w for w in writes if w[1].endswith("<module>")]
@@ -246,50 +254,40 @@ def check(tier: str) -> Result:
     in_register = [w for w in fn_writes if w[1] == REG + "register" and w[3].startswith("store ")]
     res.add("C18.R2", fns["register"].loc(), "registration.register", "exactly one store into _REGISTRY exists in the package", len(in_register) == 1 and len(fn_writes) == 1,
             f"{len(fn_writes)} write site(s): {[w[1].split('.')[-1] + ': ' + w[3] for w in fn_writes]}")
-    # dominance: straight-line top-level statements of register
-    body = fns["register"].node.body
-    idx_check = idx_store = None
-    for i, st in enumerate(body):
-        for node in ast.walk(st):
-            if isinstance(node, ast.Call) and tree.resolve_expr(m, node.func) == REG + "_check_registration_is_allowed":
-                if isinstance(st, ast.Expr) and st.value is node and idx_check is None:
-                    idx_check = i
-            if in_register and node is in_register[0][2] and idx_store is None:
-                idx_store = i
-    toplevel_store = idx_store is not None and in_register and body[idx_store] is in_register[0][2]
-    ok = idx_check is not None and idx_store is not None and idx_check < idx_store and bool(toplevel_store)
-    res.add("C18.R2", fns["register"].loc(), "registration.register", "the store is dominated by the call to _check_registration_is_allowed", ok,
-            f"check at statement {idx_check}, store at statement {idx_store} (both unconditional: {bool(toplevel_store)})")
-    # VFG facts: key stored is spec.id; the checked spec is the stored spec
+    # VFG facts: key stored is spec.id; the store runs only after the availability check let this id through
     v2 = VFG(tree, Model(tree))
     f = fns["register"]
     ps = [mk("param", f.qual, p) for p in f.params]
     v2.apply_func(f, None, None, ps, {"**": mk("param", f.qual, "kwargs")}, None, None)
     st = [e for e in v2.events if e.kind == "store_sub" and e.func is f]
-    ok = False
+    ok = dom = False
     why = f"{len(st)} store event(s)"
     if len(st) == 1:
         e = st[0]
-        spec = uncopy(e.value)
         key = uncopy(e.extra)
         sid = uncopy(v2.mk_attr(e.value, "id"))
         ok = e.target.kind == "ext" and e.target.args[0] == REG + "_REGISTRY" and key is sid
-        tests = [uncopy(x.target) for x in v2.events if x.kind == "py_branch" and x.name == "if" and x.func is fns["_check_registration_is_allowed"]]
-        guard = any(t.kind == "cmp" and t.args[0] == "in" and t.args[1] is sid and t.args[2] is e.target for t in tests)
-        why = f"key {txt(key, 3, 60)} is spec.id: {key is sid}; guard `spec.id in _REGISTRY` seen: {guard}"
-        ok = ok and guard
+        conds = norm_path(e.path)
+        dom = any(t.kind == "cmp" and t.args[0] == "in" and uncopy(t.args[1]) is sid and t.args[2] is e.target and not pol and fn is fns["_check_registration_is_allowed"]
+                  for t, pol, fn in conds)
+        rej = any(any(t.kind == "cmp" and t.args[0] == "in" and uncopy(t.args[1]) is sid and t.args[2] is e.target and pol for t, pol, _ in path)
+                  for fn, _, path, _ in raise_exits(v2) if fn is fns["_check_registration_is_allowed"])
+        why = f"key {txt(key, 3, 60)} is spec.id: {key is sid}; the store is reached only under `spec.id not in _REGISTRY` established by _check_registration_is_allowed: {dom}; the check raises under `spec.id in _REGISTRY`: {rej}"
+        ok = ok and rej
+    res.add("C18.R2", fns["register"].loc(), "registration.register", "the store is dominated by the call to _check_registration_is_allowed", dom,
+            why if len(st) == 1 else f"{len(st)} store event(s)")
     res.add("C18.R2", fns["register"].loc(), "registration.register", "stored key is the checked spec's id; the check tests `spec.id in _REGISTRY`", ok, why)
     chk = fns["_check_registration_is_allowed"]
     v4 = VFG(tree, Model(tree))
     sp = mk("param", chk.qual, chk.params[0])
     v4.apply_func(chk, None, None, [sp], {}, None, None)
     REG4 = mk("ext", REG + "_REGISTRY")
-    ifs = [e for e in v4.events if e.kind == "py_branch" and e.name == "if" and e.func is chk]
-    good = [e for e in ifs if uncopy(e.target).kind == "cmp" and uncopy(e.target).args[0] == "in" and uncopy(e.target).args[1] is mk("attr", sp, "id")
-            and uncopy(e.target).args[2] is REG4 and isinstance(e.node, ast.If) and e.node.body and isinstance(e.node.body[-1], ast.Raise)]
+    rx4 = [norm_path(path) for kind, fn, node, path, _ in v4.exits if kind == "raise"]
+    good = [path for path in rx4 if len(path) == 1 and path[0][0].kind == "cmp" and path[0][0].args[0] == "in" and path[0][1]
+            and path[0][0].args[1] is mk("attr", sp, "id") and path[0][0].args[2] is REG4]
     res.add("C18.R2", chk.loc(), "registration._check_registration_is_allowed",
-            "raises when the id is already registered", len(good) == 1 and len(ifs) == 1,
-            f"raising test {txt(uncopy(ifs[0].target), 4, 80)}" if ifs else "no raising branch")
+            "raises when the id is already registered", len(good) == 1 and len(rx4) == 1,
+            f"raising paths {[' and '.join(('' if pol else 'not ') + txt(t, 3, 60) for t, pol, _ in path) for path in rx4]}" if rx4 else "no raising path")
     # ------------------------------------------------------------------ R3 make
     v3 = VFG(tree, Model(tree))
     f = fns["make"]
@@ -334,17 +332,17 @@ def check(tier: str) -> Result:
     res.add("C18.R3", f.loc(), "registration.make", "make never writes to the registry or to the registered spec", not bad,
             "no write reaches _REGISTRY / env_spec" if not bad else f"{[ast.unparse(e.node)[:60] for e in bad]}")
     ok = False
-    why = "no raising branch"
-    for e in v3.events:
-        if e.kind != "py_branch" or e.name != "if" or not isinstance(e.node, ast.If):
-            continue
-        t = uncopy(e.target)
-        n = e.node
-        if t.kind == "cmp" and t.args[0] == "notin" and t.args[2] is REGT and n.body and isinstance(n.body[-1], ast.Raise):
-            mm = e.func.module
-            uses_registry = any(isinstance(x, ast.Name) and tree.resolve_expr(mm, x) == REG + "_REGISTRY" for st in n.body for x in ast.walk(st))
+    why = "no raising path"
+    for fn, node, path, exc in raise_exits(v3):
+        hit = [t for t, pol, _ in path if t.kind == "cmp" and t.args[0] == "in" and t.args[2] is REGT and not pol]
+        own = [t for t, pol, pf in path if pf is f or pf is fn]
+        if hit and len(own) == 1 and own[0] is hit[0]:
+            uses_registry = exc is not None and contains(exc, REGT)
+            if not uses_registry:   # message assembled by statements (loop / join) in the raising function
+                uses_registry = any(isinstance(x, ast.Name) and tree.resolve_expr(fn.module, x) == REG + "_REGISTRY"
+                                    for x in ast.walk(fn.node if fn is not f else node))
             ok = uses_registry
-            why = f"raises on `{ast.unparse(n.test)}` in {e.func.name}; message iterates the registry: {uses_registry}"
+            why = f"raises under `{txt(hit[0], 3, 60)}` false in {fn.name}; message lists the registry: {uses_registry}"
     res.add("C18.R3", f.loc(), "registration.make", "unknown ids raise with a message listing the registered ids", ok, why)
     # ------------------------------------------------------------------ R4 shipped ids
     init = tree.modules.get("jumanji")
